@@ -43,7 +43,10 @@ IncludeAccepts(c) == c \in {"ok", "okprojectrelative"}
 
 (* Python-level failures of the COND file itself: always rejected, cleanly *)
 PyFailCls == {"raise_value", "raise_zerodiv", "raise_key", "raise_custom", "syntax", "name", "recursion", "notutf8",
-              "condisdir", "typeerror_call", "assertion", "importerror", "oserror"}
+              "condisdir", "typeerror_call", "assertion", "importerror", "oserror",
+              \* syntax errors reported by the compiler stage (no offending source text), indentation, NUL byte
+              "syntax_dup_kwarg", "syntax_toplevel_return", "syntax_dup_param", "syntax_break", "syntax_nonlocal",
+              "indentation", "tabs", "nullbyte"}
 
 VARIABLE d
 Init == d \in {x \in Defs : Applicable(x)}
